@@ -3,12 +3,13 @@
 What it does
 ------------
 A *program* is a list of zero-argument callables, one per thread.  Every
-execution runs them on real OS threads -- brand-new ``threading.Thread``s with
-``fresh_threads=True`` (used for every replay), otherwise long-lived pooled
-threads that run one fresh body each per execution (thread creation costs
-milliseconds here and the bodies keep no thread-local state) -- serialised by a per-thread semaphore baton: exactly one thread runs at a time
-and it gives the baton away only at a *scheduling point*.  Scheduling points
-are placed
+execution runs them on real OS threads, serialised by a per-thread semaphore
+baton: exactly one thread runs at a time and it gives the baton away only at a
+*scheduling point*.  With ``fresh_threads=True`` (every replay) the threads are
+brand-new ``threading.Thread``s; the search itself uses long-lived pooled
+threads that get a fresh body and a fresh trace function per execution (thread
+creation costs milliseconds here, and switching sys.settrace off and on
+re-instruments every code object on 3.12).  Scheduling points are placed
 
 * before every bytecode of a *watched* frame (``watch(code, globals)`` says
   which frames; the check watches all functions of the module under test) that
@@ -33,11 +34,19 @@ decisions.  ``Execution`` runs one schedule given by a *strategy* (forced
 prefix then "keep running the current thread", or an arbitrary callback).
 ``explore`` is the depth-first search over all schedules with at most ``bound``
 preemptions (``None`` = unbounded): a node is a choice prefix; it is replayed
-on fresh threads (divergence while replaying = hard error ``SchedError``), the
+from the initial state on fresh thread bodies (divergence while replaying =
+hard error ``SchedError``: the state in which the last prefix choice is taken
+must have the digest the search recorded), the
 rest of the execution takes the default choice, and every alternative choice at
 a position beyond the prefix whose preemption count stays within the bound
 becomes a child.  A preemption is a switch away from a thread that is still
 enabled; switches at thread end or at a blocked acquire are free.
+
+CPython 3.12 notes: per-opcode events must be armed before the first traced
+thread starts (``_arm_opcode_tracing``); an exception leaving a trace function
+unsets the thread's trace function (pooled workers re-install it); an execution
+in which a thread entered a watched frame but got no 'opcode' event is a hard
+error.
 
 Nothing here is specific to Hy.  TLC helpers (run TLC, read the dot dump,
 unfold all maximal paths) are at the end of the file.
@@ -219,8 +228,9 @@ class Points:
 
     mode 'shared'  (the default): the bytecodes that touch shared MUTABLE state --
         * global/name loads, stores and deletes of a name in `shared_names`
-          (= every global some analysed function stores or deletes, plus every global
-          of the module under test currently bound to an instrumented lock),
+          (= every global some analysed function stores or deletes, plus the names the
+          caller lists in `mutable_names`: the globals of the module under test bound to a
+          lock or to any other mutable object),
         * every closure-cell access, every attribute / subscript store or delete,
           and attribute / subscript LOADS too as soon as any analysed function
           contains an attribute / subscript store.
@@ -234,7 +244,7 @@ class Points:
     (acquire/release of instrumented locks are scheduling points in every mode.)
     """
 
-    def __init__(self, mode="shared", codes=(), lock_names=()):
+    def __init__(self, mode="shared", codes=(), mutable_names=()):
         assert mode in ("shared", "globals", "every")
         self.mode = mode
         self.codes = set(codes)
@@ -249,7 +259,7 @@ class Points:
                 elif ins.opname in SUBSCR_WRITES:
                     self.subscr_store = True
         self.written = frozenset(written)
-        self.shared_names = frozenset(written) | frozenset(lock_names)
+        self.shared_names = frozenset(written) | frozenset(mutable_names)
         self._tables = {}
 
     def describe(self):
@@ -636,8 +646,10 @@ class Execution:
                 r = ("ok", self.bodies[me]())
             except _Abort:
                 raise
-            except BaseException as e:          # the body's own failure is an observation
+            except BaseException as e:          # the body's own failure is an observation ...
                 r = ("exc", e)
+                if isinstance(e, SchedError) and self.error is None:
+                    self.error = e              # ... unless it is the harness complaining
             finally:
                 host.set_tracer(None)
             self.results[me] = r
